@@ -1,193 +1,160 @@
 /-
   C01 — Assembled image is the ISA encoding of the source.
 
-  Layers: `Spec/Encode.lean` (one word per instruction, as bit-field concatenation over addresses),
-  `Spec/Prog.lean` (abstract programs and their image), the assembler model
-  (`Model/{Lexer,Parser,Air,Assemble}.lean`).
+  Statement / AIR level (`Props/C01Core.lean`, `Props/C01Stage1.lean`): `emit_eq_encode_holds`,
+  `image_eq_spec`, `image_word`, `image_depends_on_labels_only`, `stmt_tokens_to_spec`.
 
-  PROVED here (for every text, every flag, every symbol table left behind):
+  This file: the text level — **proved** for the concrete rendering `Spec.render`
+  (`Spec/Render.lean`), through the lexer lemmas (`Proofs/LexTok.lean`, `Proofs/LexGap.lean`), the
+  preprocessor lemma (`Proofs/PreRender.lean`, `Proofs/RenderRel.lean`) and the induction over whole
+  programs with the symbol-table invariant (`Proofs/ParseProg.lean`: `parse_tokens_image`).
 
-  * `emit_eq_encode_holds` (stage 1, `Props/C01Stage1.lean`): `AsmLine::emit` of a resolved
-    statement = `Spec.encode` at `orig + line − 1`, for every form and every operand value;
-  * `image_eq_spec`: whenever `assemble` returns an image, there is the list of resolved
-    statements the parser produced — numbered 1, 2, 3, …, at most 65,535 — and the image's words
-    are exactly `[encode (toSpec stmtᵢ) (orig + i)]`, for *every* origin `orig` (the encoding is
-    position independent); `image_word` spells this out word by word;
-  * `image_depends_on_labels_only`: the resolved statements, hence the image, depend on the symbol
-    table only through the map label ↦ statement number — the order in which labels are defined
-    and used, and whatever else the table contains, is irrelevant.
+  Layout space covered (`Layout.ok`): per token an arbitrary separator — any non-empty mix of
+  SPACE / TAB / LF / FF / CR / `,` / `:` and `;…` comments closed by a line feed, beginning with a
+  white-space character (DESIGN.md I12; in front of the first token also nothing, or a comment
+  straight away; after the last token also nothing, or an unclosed comment) — so blank lines, a colon
+  after a label, commas between operands, a line break between a directive and its operand are all
+  covered; every mixture of letter cases in mnemonics, directives and register names; `br` or `brnzp`;
+  every literal spelling the specification reads (`#d #+d #-d xH XH 0xH 0XH x-H x+H`, leading zeros,
+  hex digits of either case, value in −32768 … 65535); a final `.end` (any letter case) followed by
+  arbitrary ignored text; every valid label name (DESIGN.md I13,
+  including names that begin like a hex literal or a register), distinct labels having distinct names;
+  string bodies that can stand between quotes.
 
-  * `parse_stmt_tokens` + `airOf_words` (`Proofs/AsmStmtTokens.lean`, statement level of the
-    token stage): for every abstract instruction statement and every token list that spells its
-    operands (any spans / literal base / register case), `parse_instr` / `parse_trap` returns
-    exactly `airOf` (or `litRange` when a literal does not fit), and the specification's word of the
-    resolved `airOf` statement is `Spec.SrcStmt.words` at `orig + line − 1` with label addresses
-    read off the final symbol table (incl. the literal-offset arithmetic and the `u8` casts);
-    combined in `stmt_tokens_to_spec` below.
+  * `lexKind_label`   — a valid label name lexes to a label token (lexer lemma of I13, ⇐ direction);
+  * `preprocess_render` — `preprocess (render L P)` = the program's token stream (data directives
+    expanded, `.break` as breakpoint token, `.orig` kept);
+  * `assemble_image_render` — `assemble_image` for the relation "`t = render L P` for a well-formed `L`":
+    every layout of a well-formed program assembles to `Spec.Prog.image`;
+  * `layout_irrelevant_render` — two layouts of one program give the same image;
+  * `label_order_irrelevant_render` is subsumed: `Prog.image` does not depend on where a label is
+    defined relative to its uses, and the theorem holds for every `P`.
 
-  STATED, not proved (`def … : Prop`; checked by the three-way correspondence `./check C01`, which
-  compares lace, this model and `Spec.Prog.image` on rendered abstract programs):
+  Side conditions that sit in `Layout.ok` although they concern the program (`Prog.renderable`):
+  every `br` has a mnemonic (`nzp ≠ 0`), string bodies contain no raw line feed / quote and do not end
+  in a lone backslash, and **after the 65,535th word only `.blkw 0` follows** (`fullOk`; true of every
+  program with fewer than 65,535 words, `fullOk_of_lt`).  That last condition marks a real difference
+  between lace and `Prog.image`: with a full image lace answers `too many` to a `.break` / `.orig` /
+  label that follows the last word, `Prog.image` accepts it.
 
-  * `assemble_image`: for a well-formed abstract program `P` and any text `t` that is a layout of
-    `P`, `assemble flag [] t = ok (Prog.image flag P)`; its corollary `layout_irrelevant`.
-    Missing: the lexer lemmas of stage 2 (`lex (spelling ++ sep ++ rest) = tok :: …`), the
-    preprocessor's expansion of `.fill/.blkw/.stringz`, and the induction over the items of a whole
-    program (`parseLoop`) with the symbol-table invariant "label ↦ 1 + number of words before it"
-    that lifts `stmt_tokens_to_spec` from one statement to `Spec.Prog.image`.
+  * `lexKind_label_iff` (`Proofs/LexLabelIff.lean`) — over `[A-Za-z0-9_]` the lexer reads a name as a
+    label **iff** it is a `validLabel` (outside that alphabet lace reads e.g. `x-zz` as a label).
 -/
-import Lace.Props.C01Stage1
-import Lace.Proofs.AsmImage
-import Lace.Proofs.AsmStmtTokens
-import Lace.Spec.Prog
-import Lace.Model.Assemble
+import Lace.Props.C01Core
+import Lace.Proofs.RenderRel
+import Lace.Proofs.LexLabelIff
 namespace Lace.C01
-open Lace.Asm Lace.Spec
+open Lace.Asm Lace.Spec Lace.C04
 
-/-- **The image is the ISA encoding of the parsed statements.**  If `assemble` returns an image
-then the parser produced statements numbered 1, 2, 3, … (at most 65,535), all their labels were
-resolved through the symbol table, and the emitted words are exactly the specification's words of
-these statements — at whatever origin the program is placed. -/
-theorem image_eq_spec (flag : Bool) (tbl : SymTab) (src : List Char) (img : Image)
-    (h : (assemble flag tbl src).1 = .ok img) :
-    ∃ (air : Air) (stmts : List AsmLine),
-      (parse (some flag) tbl src).1 = .ok air ∧ img.orig = air.orig ∧
-      backpatchAll (parse (some flag) tbl src).2 air.stmts = some stmts ∧
-      Numbered 1 stmts ∧ stmts.length ≤ 65535 ∧ (∀ a ∈ stmts, a.Resolved) ∧
-      ∀ orig : Word, specWords orig stmts = some img.words := by
-  unfold assemble assembleWith at h
-  generalize hp : parse (some flag) tbl src = r at h
-  obtain ⟨r, tbl'⟩ := r
-  cases r with
-  | diag k s => simp at h
-  | panic s => simp at h
-  | ok air =>
-    simp only [] at h
-    have hnum := parse_numbered (some flag) tbl src air (by rw [hp])
-    split at h
-    · simp at h
-    · rename_i stmts hb
-      have hres := backpatchAll_resolved hb
-      obtain ⟨hn, hl⟩ := backpatchAll_numbered hb hnum.1
-      refine ⟨air, stmts, rfl, ?_, hb, hn, by rw [hl]; exact hnum.2, hres, ?_⟩
-      · split at h <;> simp at h
-        rw [← h]
-      · intro orig
-        have he := emitAll_eq_specWords orig stmts hres
-        rw [he] at h
-        cases hs : specWords orig stmts with
-        | none => rw [hs] at h; simp at h
-        | some ws =>
-          rw [hs] at h
-          simp only [Outcome.ok.injEq] at h
-          rw [← h]
+/-- "`t` is a layout of `P`": the text `render L P` of some well-formed layout `L`. -/
+def IsLayout (P : Prog) (t : List Char) : Prop := ∃ L : Layout, L.ok P = true ∧ t = render L P
 
-/-- … word by word: word `i` of the image is `encode` of statement `i` at address `orig + i`. -/
-theorem image_word (flag : Bool) (tbl : SymTab) (src : List Char) (img : Image)
-    (h : (assemble flag tbl src).1 = .ok img) :
-    ∃ stmts : List AsmLine, stmts.length = img.words.length ∧
-      ∀ (orig : Word) (i : Nat) (h1 : i < stmts.length) (h2 : i < img.words.length),
-        ∃ instr, toSpec orig stmts[i].stmt = some instr ∧
-          encode instr (orig + BitVec.ofNat 16 i) = some img.words[i] := by
-  obtain ⟨air, stmts, _, _, _, hn, _, _, hw⟩ := image_eq_spec flag tbl src img h
-  refine ⟨stmts, ((specWords_getElem (hw 0#16)).1).symm, ?_⟩
-  intro orig i h1 h2
-  have hi := (specWords_getElem (hw orig)).2 i h1 h2
-  have hline := hn.getElem i h1
-  unfold specWord at hi
-  cases hs : toSpec orig stmts[i].stmt with
-  | none => rw [hs] at hi; cases hi
-  | some instr =>
-    rw [hs] at hi
-    refine ⟨instr, rfl, ?_⟩
-    rw [hline, Nat.add_comm, addrOf_succ] at hi
-    exact hi
+/-- **Lexer lemma for labels (DESIGN.md I13, ⇐).**  A valid label name, followed by the end of the
+text or a separator, is read as one label token whose text is the name. -/
+theorem lexKind_label (feat : Option Bool) (name : List Char) (h : validLabel name = true) (pos : Nat)
+    (rest : List Char) (hd : Delim rest) :
+    advanceToken feat pos (name ++ rest) = mkTok .label pos name rest :=
+  lexes_label feat name h pos rest hd
 
-/-- **The image depends on the symbol table only through label ↦ statement number.**  Two tables
-that map every name to the same number (whatever the order of their entries — the order in which
-the labels were defined — and whatever unused entries they hold) resolve and emit any list of
-parsed statements identically. -/
-theorem image_depends_on_labels_only (t1 t2 : SymTab) (h : ∀ name, t1.get? name = t2.get? name)
-    (l : List AsmLine) :
-    (backpatchAll t1 l).map (fun s => emitAll s []) = (backpatchAll t2 l).map (fun s => emitAll s []) := by
-  rw [backpatchAll_congr h l]
+/-- hypotheses satisfiable -/
+example : validLabel "x1g".toList = true ∧ validLabel "R23".toList = true ∧ validLabel "loop".toList = true ∧
+    validLabel "x12".toList = false ∧ validLabel "r7".toList = false ∧ validLabel "Halt".toList = false := by
+  decide
 
-/-- hypotheses satisfiable: two tables with the same content in a different order -/
-example : ∀ name, SymTab.get? [("a".toList, 1), ("b".toList, 2)] name =
-    SymTab.get? [("b".toList, 2), ("a".toList, 1)] name := by
-  intro name
-  simp only [SymTab.get?]
-  by_cases ha : "a".toList = name
-  · subst ha; rfl
-  · by_cases hb : "b".toList = name
-    · subst hb; rfl
-    · have ha' : ¬ ['a'] = name := ha
-      have hb' : ¬ ['b'] = name := hb
-      simp [ha', hb']
+/-- **The preprocessor on a rendered program**: the tokens the parser receives are the program's
+token stream — mnemonics, operands (labels with their names), `.orig` with its operand, one data
+token per word of `.fill` / `.blkw` / `.stringz`, a breakpoint token per `.break`; white space and
+comments are gone. -/
+theorem preprocess_render (flag : Bool) (L : Layout) (P : Prog) (hok : L.ok P = true)
+    (hst : flag = true ∨ P.stmts.all (fun ls => !ls.2.isStack) = true) :
+    ∃ toks, preprocess (some flag) (render L P) = .ok toks ∧
+      List.Forall₂ ETok.Matches (progETok L.names P) toks := by
+  have htr : TrailEnds (some flag) L.trail := by
+    simp only [Layout.ok, Bool.and_eq_true] at hok
+    exact trailOk_ends (some flag) hok.1.2
+  exact preprocess_textRel (some flag) L.trail (render L P) _ htr (textRel_render flag L P hok hst)
 
-/-- hypotheses satisfiable: `loop add r1 r1 #-1 / brp loop / halt` assembles to an image -/
-example : ∃ img, (assemble false [] "loop add r1 r1 #-1\nbrp loop\nhalt".toList).1 = .ok img ∧
-    img.words = [0x127F#16, 0x03FE#16, 0xF025#16] := ⟨_, by rfl, by rfl⟩
+theorem image_stack {flag : Bool} {P : Prog} (h : (P.image flag).isSome = true) :
+    flag = true ∨ P.stmts.all (fun ls => !ls.2.isStack) = true := by
+  unfold Prog.image at h
+  simp only [] at h
+  split at h
+  · rename_i hc; exact hc.2.1
+  · cases h
 
-/-- **Tokens → specification, one statement.**  Take any abstract instruction statement `s`, any
-tokens spelling its operands, the symbol table `tbl` at the moment it is parsed as statement number
-`line`, and a final table `tbl'` extending it.  Then the parser's answer is a statement (or the
-`litRange` diagnostic) such that resolving it against `tbl'` and taking the specification's word
-gives exactly `Spec.SrcStmt.words s` at address `orig + line − 1`, labels read off `tbl'`. -/
-theorem stmt_tokens_to_spec (names : Nat → List Char) (srcLen : Nat) (tbl tbl' : SymTab) (line : Nat)
-    (orig : Word) (sp : Span) (s : SrcStmt) (hd : Head) (ops : List Opnd)
-    (hs : stmtSyntax names s = some (hd, ops)) (toks rest : List Token) (hm : MatchAll ops toks)
-    (hmono : ∀ n v, tbl.get? n = some v → tbl'.get? n = some v)
-    (lab : Nat → Option Word) (hlab : ∀ id, lab id = (tbl'.get? (names id)).map (addrOf orig)) :
-    (∃ stmt te, parseHead srcLen tbl line hd (toks ++ rest) = .ok (stmt, rest, te) ∧
-        s.words lab (addrOf orig line) = finish tbl' orig line sp stmt) ∨
-    (∃ spn, parseHead srcLen tbl line hd (toks ++ rest) = .diag .litRange spn ∧
-        s.words lab (addrOf orig line) = none) := by
-  have h1 := parse_stmt_tokens names srcLen tbl line s hd ops hs toks rest hm
-  have h2 := airOf_words names tbl tbl' line orig sp hmono lab hlab s (by rw [hs]; rfl)
-  cases ha : airOf names tbl line s with
-  | some stmt =>
-    rw [ha] at h1 h2
-    obtain ⟨te, h1⟩ := h1
-    exact Or.inl ⟨stmt, te, h1, h2⟩
-  | none =>
-    rw [ha] at h1 h2
-    obtain ⟨spn, h1⟩ := h1
-    exact Or.inr ⟨spn, h1, h2⟩
+/-- **C01, text level.**  Every layout of a well-formed program assembles (from a fresh symbol
+table) to the image the specification assigns to the program. -/
+theorem assemble_image_render : assemble_image IsLayout := by
+  intro flag P t hsyn himg ⟨L, hok, ht⟩
+  subst ht
+  have hst := image_stack himg
+  obtain ⟨toks, hpre, hm⟩ := preprocess_render flag L P hok hst
+  cases hi : P.image flag with
+  | none => rw [hi] at himg; cases himg
+  | some ow =>
+    obtain ⟨o, ws⟩ := ow
+    have hok' := hok
+    simp only [Layout.ok, Bool.and_eq_true] at hok'
+    obtain ⟨⟨⟨hren, _⟩, _⟩, hinj⟩ := hok'
+    obtain ⟨air, tbl', hparse, horig, stmts, hback, hemit⟩ :=
+      parse_tokens_image flag L.names P (utf8Len (render L P)) toks hm hinj hren hsyn o ws hi
+    have hp : parse (some flag) [] (render L P) = (.ok air, tbl') := by
+      unfold parse
+      rw [hpre]
+      exact hparse
+    refine ⟨{ orig := air.orig, words := ws, spans := stmts.map (fun a => (a.span.offs, a.span.len)),
+              bps := air.bps }, ?_, by rw [horig]; exact hi⟩
+    unfold assemble assembleWith
+    rw [hp]
+    simp only [hback, hemit]
 
-/-- hypotheses satisfiable: `ld r3 #-2` spelled with a decimal literal token -/
-example : stmtSyntax (fun _ => []) (.ld 3#3 (.lit 0xFFFE#16)) = some (.instr .ld, [.reg 3#3, .lit 0xFFFE#16]) ∧
-    MatchAll [.reg 3#3, .lit 0xFFFE#16]
-      [⟨.reg 3#3, ⟨3, 2⟩, "r3".toList⟩, ⟨.lit (.dec 0xFFFE#16), ⟨6, 3⟩, "#-2".toList⟩] :=
-  ⟨rfl, rfl, rfl, trivial⟩
+/-- **Re-laying out the text never changes the image.** -/
+theorem layout_irrelevant_render : layout_irrelevant IsLayout :=
+  layout_irrelevant_of_assemble_image IsLayout assemble_image_render
 
-/-! ### text level (stated; see the header) -/
+/-! ### the hypotheses are satisfiable: a program under a far-from-canonical layout -/
 
-/-- `t` is accepted and yields the image the specification assigns to `P`. -/
-def AssemblesTo (flag : Bool) (t : List Char) (P : Prog) : Prop :=
-  ∃ img, (assemble flag [] t).1 = .ok img ∧ P.image flag = some (img.orig, img.words)
+/-- `.orig x3000 / loop add r1 r1 #-1 / brp loop / .break / x_msg .stringz "a\n" / .fill xBEEF / halt` -/
+def exProg : Prog :=
+  { items := [.orig 0x3000#16, .stmt (some 0) (.addImm 1#3 1#3 0xFFFF#16), .stmt none (.br 1#3 (.label 0)), .brk,
+      .stmt (some 1) (.stringz ['a', '\\', 'n']), .stmt none (.fill 0xBEEF#16), .stmt none (.namedTrap 5#3)] }
 
-/-- Full text-level statement of C01 relative to a rendering relation `Layout P t` ("`t` is a
-layout of `P`": keyword case, separators, comments, blank lines, literal spellings, label names —
-DESIGN.md I12, I13; the relation realised by the harness generator `enc.rs::render`): every
-layout of a well-formed program assembles to the specification's image. -/
-def assemble_image (Layout : Prog → List Char → Prop) : Prop :=
-  ∀ (flag : Bool) (P : Prog) (t : List Char), P.syntaxOk = true → (P.image flag).isSome = true →
-    Layout P t → AssemblesTo flag t P
+/-- comment first, mixed case, colon after the label, commas, a comment between a directive and its
+operand, CR LF, five literal spellings, a label that begins like a hex literal, an open comment at
+the end -/
+def exLayout : Layout :=
+  { names := fun i => if i = 0 then ['l','o','o','p'] else ['x','_','m','s','g']
+    toks := [
+      { sep := [';',' ','h','e','a','d','\n'], caps := [false, true] },   -- .Orig
+      { sep := ['\t'], lit := ['0','X','3','0','0','0'] },
+      { sep := ['\n','\n'] },                                             -- loop
+      { sep := [':',' ',' '], caps := [true, true, true] },               -- ADD
+      { sep := [' '], caps := [true] },                                   -- R1
+      { sep := [',',' '] },                                               -- r1
+      { sep := [','], lit := ['#','-','0','1'] },
+      { sep := [' ',';',' ','d','e','c','\n',' '], caps := [false, true] }, -- bRp
+      { sep := [' '] },                                                   -- loop
+      { sep := ['\r','\n'] },                                             -- .break
+      { sep := ['\n'] },                                                  -- x_msg
+      { sep := [' '], caps := [false, true, true] },                      -- .STringz
+      { sep := [' ',';','c','\n','\t'] },                                 -- "a\n"
+      { sep := ['\n'] },                                                  -- .fill
+      { sep := [' '], lit := ['x','-','4','1','1','1'] },
+      { sep := ['\x0c','\n'], caps := [true] } ],                         -- Halt
+    trail := [' ',';',' ','e','n','d'] }
 
-/-- corollary shape: two layouts of one program give the same image -/
-def layout_irrelevant (Layout : Prog → List Char → Prop) : Prop :=
-  ∀ (flag : Bool) (P : Prog) (t1 t2 : List Char), P.syntaxOk = true → (P.image flag).isSome = true →
-    Layout P t1 → Layout P t2 →
-    ∃ i1 i2, (assemble flag [] t1).1 = .ok i1 ∧ (assemble flag [] t2).1 = .ok i2 ∧
-      i1.orig = i2.orig ∧ i1.words = i2.words
+example : exLayout.ok exProg = true ∧ exProg.syntaxOk = true ∧ (exProg.image false).isSome = true := by
+  decide
 
-theorem layout_irrelevant_of_assemble_image (Layout : Prog → List Char → Prop)
-    (h : assemble_image Layout) : layout_irrelevant Layout := by
-  intro flag P t1 t2 hs hi h1 h2
-  obtain ⟨i1, a1, b1⟩ := h flag P t1 hs hi h1
-  obtain ⟨i2, a2, b2⟩ := h flag P t2 hs hi h2
-  rw [b1] at b2
-  simp only [Option.some.injEq, Prod.mk.injEq] at b2
-  exact ⟨i1, i2, a1, a2, b2.1, b2.2⟩
+example : String.ofList (render exLayout exProg) =
+    "; head\n.Orig\t0X3000\n\nloop:  ADD R1, r1,#-01 ; dec\n bRp loop\r\n.break\nx_msg .STringz ;c\n\t\"a\\n\"\n.fill x-4111\x0c\nHalt ; end" := by
+  decide
+
+example : AssemblesTo false (render exLayout exProg) exProg :=
+  assemble_image_render false exProg _ (by decide) (by decide) ⟨exLayout, by decide, rfl⟩
+
+/-- the same program, ended by `.END` and text the assembler never looks at -/
+example : ({ exLayout with trail := "\n.END add r0 \" é #99999 .orig".toList } : Layout).ok exProg = true := by
+  decide
 
 end Lace.C01
